@@ -37,6 +37,7 @@ func init() {
 				{"vars {\n monetary $o = overdraft(@a, USD)\n}\nsend $o (\n source = @world\n destination = @a\n)", "", "a", "", "0"},
 				{"vars {\n portion $p\n}\nsend [USD 99] (\n source = @world\n destination = { $p to @d remaining to @e }\n)", "p=text:1/3", "", "", "0"},
 				{"vars {\n portion $p\n}\nsend [USD 99] (\n source = @world\n destination = { $p to @d remaining to @e }\n)", "p=text:101%", "", "", "0"},
+				{"vars {\n string $s\n}\nset_tx_meta(\"rate\", \"2.5% of the total\")\nset_tx_meta(\"note\", $s)\nset_account_meta(@a, \"k\", \"100%d\")", "s=text:50%s off", "", "", "0"},
 				{"send [USD 1] (\n source = @a\n", "", "a", "", "0"},
 				{"set_tx_meta(\"k\", 1/0)", "", "", "", "0"},
 				{"vars {\n number $n\n}\nset_tx_meta(\"big\", $n + $n)", "n=num", "", "", "0"},
@@ -67,7 +68,7 @@ func init() {
 			}
 			for ri, r := range runs {
 				chans := []string{"raw", "stdin", "files"}
-				if ri < 4 || ri == 7 || tier == "thorough" {
+				if ri < 4 || ri == 7 || ri == 8 || tier == "thorough" {
 					chans = append(chans, "path+stdin", "files+stdin-vars", "raw+files", "path+raw")
 				}
 				for _, ch := range chans {
